@@ -200,7 +200,9 @@ func (cfg *mconnCfg) build() {
 	cfg.mconnConf.RecvRate = cfg.Rate
 	cfg.mconnConf.MaxPacketMsgPayloadSize = cfg.Payload
 	cfg.mconnConf.FlushThrottle = time.Duration(cfg.FlushUs) * time.Microsecond
-	// no pings during a case: the pong timeout is a wall-clock decision of the code under test
+	// no pings of its own during a case: the pong timeout (which must be shorter than the ping interval) is a wall-clock
+	// decision of the code under test; pings from the peer, and the pongs they trigger while messages are being sent,
+	// are the subject of group mconn-pongs
 	cfg.mconnConf.PingInterval = 10 * time.Minute
 	cfg.mconnConf.PongTimeout = 9 * time.Minute
 }
